@@ -38,7 +38,7 @@ def grid_points(c, upto):
 @st.composite
 def spec_st(draw, deep=False, chains=False):
     if chains:
-        spec = draw(G.chain_spec())
+        spec = draw(G.chain_spec(max_n=18))
     elif deep:
         spec = draw(st.one_of(G.dag_spec(), G.dag_spec(max_models=7, max_chain=4), G.ring_spec(modes=["suff", "suff_split", "suff_multi", "dpush"], max_n=7)))
     else:
